@@ -1003,7 +1003,7 @@ def gen_sessions(tier, rng):
     whole = b"".join(good)
     for cut in range(0, len(whole), 97 if quick else 5):
         yield Case("c13x.rtspclient " + hex_tok(whole[:cut]), cls="x-rtspclient")
-    for _ in range(12 if quick else 3000):
+    for _ in range(12 if quick else 800):
         k = rng.randrange(len(good))
         g = good[:k] + [text_mutate(rng, good[k], [b"\r\n", b":", b" ", b";", b"=", b"-", b"$"])] + good[k + 1:]
         yield Case("c13x.rtspclient " + hex_tok(b"".join(g)), cls="x-rtspclient")
